@@ -80,7 +80,7 @@ class CSSRule(css_parser.util.Base2):
 
     def _setAtkeyword(self, keyword):
         """Check if new keyword fits the rule it is used for."""
-        atkeyword = self._normalize(keyword)
+        atkeyword = self._normalizeatkeyword(keyword)
         if not self.atkeyword or (self.atkeyword == atkeyword):
             self._atkeyword = atkeyword
             self._keyword = keyword
@@ -250,7 +250,14 @@ class CSSRuleRules(CSSRule):
         # Under Python 2.x this was basestring but ...
         if isinstance(rule, string_type):
             tempsheet = css_parser.css.CSSStyleSheet()
-            tempsheet.cssText = rule
+            try:
+                # prefixes (and the default namespace) of the sheet this
+                # rule belongs to are valid in the new rule
+                namespaces = self.parentStyleSheet.namespaces
+            except AttributeError:
+                tempsheet.cssText = rule
+            else:
+                tempsheet.cssText = (rule, namespaces)
             if len(tempsheet.cssRules) != 1 or (tempsheet.cssRules and
                                                 not isinstance(tempsheet.cssRules[0], css_parser.css.CSSRule)):
                 self._log.error('%s: Invalid Rule: %s' % (self.__class__.__name__,
